@@ -3,13 +3,14 @@
 import json, sys
 pid = sys.argv[1]
 wt = sys.argv[2]
+sd = sys.argv[3] if len(sys.argv) > 3 else '/tmp/seed_' + pid
 for l in open('/verif/properties.jsonl'):
     p = json.loads(l)
     if p['id'] == pid:
         break
 print(f"""You are helping to evaluate a verification effort for westes/flex (the lexical analyzer generator). Your job is to act as a realistic source of regressions.
 
-You have your own scratch git worktree of the flex repository at {wt} (already configured and built: `cd {wt} && make -j8` rebuilds, `cd {wt} && make -C tests clean && make -k -j8 check` runs the 257-test suite (the clean matters: without it stale test scanners are reused and the suite passes vacuously) in about 15-40 s and prints a summary with '# PASS:' / '# FAIL:' lines). Work ONLY inside {wt} and /tmp/seed_{pid} (create it). Do not read or touch /verif or /repo. There is no network.
+You have your own scratch git worktree of the flex repository at {wt} (already configured and built: `cd {wt} && make -j8` rebuilds, `cd {wt} && make -C tests clean && make -k -j8 check` runs the 257-test suite (the clean matters: without it stale test scanners are reused and the suite passes vacuously) in about 15-40 s and prints a summary with '# PASS:' / '# FAIL:' lines). Work ONLY inside {wt} and {sd} (create it). Do not read or touch /verif or /repo. There is no network.
 
 Here is a semantic property flex is supposed to satisfy:
 
@@ -25,7 +26,7 @@ Produce up to THREE independent changes to the flex sources under {wt}/src (gene
   3. is realistic: the kind of slip a maintainer could make in a refactor (off-by-one, wrong comparison, dropped special case, stale state not saved or restored, wrong variable, two sites that each look fine alone) -- not sabotage that ordinary use would expose at once,
   4. needs something SPECIFIC to manifest: an unusual input, a particular buffer/refill boundary, a multi-step sequence of API calls, a particular option combination, a fault at a particular point, a particular interleaving. Prefer the three changes to live in different mechanisms/files.
 
-For each change i (1..3) write into /tmp/seed_{pid}/m<i>/ :
+For each change i (1..3) write into {sd}/m<i>/ :
   - patch.diff : `git diff` of the change against the worktree's HEAD (source files only, no generated files; it must apply with `git apply` to a clean checkout of HEAD),
   - a demonstration: a small flex spec / C program / shell script `demo.sh` that takes the path of a built source tree as $1 (uses $1/src/flex and, for C++, -I$1/src), exits 0 on the unmodified tree and exits non-zero on the changed tree, showing the property violated (keep it self-contained and quick; it may write only under its own temp dir),
   - notes.md : which clause of the property it breaks, what it needs in order to manifest, and confirmation (with the numbers) that the test suite still passes with the change.
